@@ -501,6 +501,7 @@ func (ctx *Ctx) rloop(path []byte, node *node, tpl *Tpl, w io.Writer) {
 				}
 				// Prepare RL object.
 				rl.cntr = 0
+				rl.c = 0
 				rl.node = node
 				rl.tpl = tpl
 				rl.ctx = ctx
